@@ -297,7 +297,7 @@ func labelHas(P *core.Program, nt *types.Named, method string) bool {
 func decoderFuncs(c *core.Ctx) []*ssa.Function {
 	P := c.P
 	var roots []*ssa.Function
-	if f := P.Root.Func("ParseClientMsg"); f != nil {
+	if f := P.Func(P.Root, "ParseClientMsg"); f != nil {
 		roots = append(roots, f)
 	}
 	for _, fn := range P.ModFuncs {
